@@ -512,6 +512,17 @@ impl DnsCache {
     /// Removes all records of a service type: PTR, SRV, TXT records and any ADDR records
     /// that are not referenced by any SRV record.
     pub(crate) fn remove_service_type(&mut self, ty_domain: &str) {
+        // Instances that a PTR record of another type points to as well (the instance's
+        // type and a subtype of it): their SRV and TXT records are still needed.
+        let shared: HashSet<String> = self
+            .ptr
+            .iter()
+            .filter(|(ty, _)| ty.as_str() != ty_domain)
+            .flat_map(|(_, records)| records.iter())
+            .filter_map(|r| r.record.any().downcast_ref::<DnsPointer>())
+            .map(|dns_ptr| dns_ptr.alias().to_string())
+            .collect();
+
         let Some(ptr_records) = self.ptr.get_mut(ty_domain) else {
             return;
         };
@@ -521,6 +532,9 @@ impl DnsCache {
         for ptr in ptr_records.iter() {
             if let Some(dns_ptr) = ptr.record.any().downcast_ref::<DnsPointer>() {
                 let instance_name = dns_ptr.alias();
+                if shared.contains(instance_name) {
+                    continue;
+                }
 
                 // collect all hostnames from SRV records of this instance
                 if let Some(srv_records) = self.srv.get_mut(instance_name) {
